@@ -308,7 +308,7 @@ def _build_table():
         return Intersection(xid, [IntersectionIncomingElement(51, set(), set(), set(), set(), 5 + k)], set())
 
     def plain_border(bid=1, k=0):     # without `adjacent`: keeps AreaBorder's own hash defect out of the containers
-        return AreaBorder(bid, np.array([[0.0, 0.0], [1.0, 0.0 + (EPS if k == 1 else 0.0)]]))
+        return AreaBorder(bid, pts([[0.0, 0.0], [1.0, 0.0 + (EPS if k == 1 else 0.0)]]))   # moved with the network
 
     def area(aid=60, k=0):
         return Area(aid, [plain_border(61, k)], set([AreaType.PARKING]))
